@@ -534,6 +534,10 @@ def oracle(text, span=None, expected=None):
     return None
 
 
+def _open_known():
+    return [k for k in vlib.load_known_findings() if k.get('property') == 'C14' and k.get('status') == 'open']
+
+
 def search(ctx, hints):
     """Fresh cases under a time budget (the generators are the property's own input space)."""
     import time
@@ -556,7 +560,7 @@ def search(ctx, hints):
             c = ('ident', r.choice(LEFTS), rand_ident(r, words), r.choice(RIGHTS), 'Name')
         tried += 1
         f = oracle_case(c)
-        if f:
+        if f and classify(f, _open_known()) is None:
             return {'failures': [f], 'tried': tried}
     return {'failures': [], 'tried': tried}
 
